@@ -179,6 +179,29 @@ impl Prop for C01 {
                     out.push(viol("read-agrees", format!("a reader failing after {} bytes yields a document", half)));
                 }
             }
+            // the same text handed over as a file
+            crate::props::c02::with_file(s, |path| {
+                match Deb822::from_file_relaxed(path) {
+                    Ok((d7, e7)) => {
+                        if d7.to_string() != s || e7 != errs {
+                            out.push(viol("read-relaxed-agrees", format!("from_file_relaxed: printed {:?} errors {:?}", d7.to_string(), e7)));
+                        }
+                    }
+                    Err(e) => out.push(viol("read-relaxed-agrees", format!("from_file_relaxed: {}", e))),
+                }
+                match Deb822::from_file(path) {
+                    Ok(d8) => {
+                        if !strict.is_ok() || d8.to_string() != s {
+                            out.push(viol("read-agrees", format!("from_file ok printing {:?}, strict ok={}", d8.to_string(), strict.is_ok())));
+                        }
+                    }
+                    Err(_) => {
+                        if strict.is_ok() {
+                            out.push(viol("read-agrees", "from_file failed, strict ok".to_string()));
+                        }
+                    }
+                }
+            });
             // token partition
             let toks = deb822_lossless::verif::lex(s);
             let cat: String = toks.iter().map(|(_, t)| t.as_str()).collect();
